@@ -15,13 +15,19 @@ def run(tier, rep):
         wcfg = [w for i, w in enumerate(wcfg) if i % 4 == vlib.SEED % 4]
     res2, d2 = dxlib.run_dx('plain', wcfg, 'c04w', 'A,B1', 'ref,inv', api='generator', deadline=deadline)
     acc += [r for r in res2 if 'crashed' in r or r['port_err'] == 0]
-    nb = len([r for r in acc if 'crashed' not in r and r['config']['cat'] == 'bkg'])
+    # a second pass over the background names with a dense interior grid (16 / 32 values) on every draw: rejection samplers
+    # the port revised (Y90's internal pair) or only the port has cannot be steered from the model's thresholds
+    res3, d3 = dxlib.run_dx('plain', ['bkg %s' % n for n in dxlib.bkg_all()], 'c04d', 'A', 'inv', api='generator', deadline=deadline, extra=['--dense', '16' if tier == 'quick' else '32'])
+    for r in res3:
+        r['dense_pass'] = True
+    acc += [r for r in res3 if 'crashed' in r or r['port_err'] == 0]
+    nb = len([r for r in acc if 'crashed' not in r and r['config']['cat'] == 'bkg' and not r.get('dense_pass')])
     if nb < 69:
         rep.violation('bkg:count', 'only %d of the 69 published background names initialise' % nb)
     c01.aggregate(rep, acc, False, ('c04',), 'generator',
                   'every published background name and every accepted double-beta configuration (plus windows), driven through '
                   'decay0_generator::initialize/shoot; layers %s with the tail values 1e-12 and 1-1e-12 in the alphabet of every choice point; '
-                  'invariants of C04 on every execution; bounded work = every execution finishes within 1e5 deviates under the fair default stream '
+                  'invariants of C04 on every execution; background names a second time with a 16/32-point interior grid on every draw; bounded work = every execution finishes within 1e5 deviates under the fair default stream '
                   '(thresholds from the reference model where it exists, from bisection on the port\'s draw-site signature otherwise)' % layers)
     rep.coverage['max_deviates_per_shot'] = max([r['max_draws'] for r in acc if 'crashed' not in r] + [0])
     rep.coverage['max_particles'] = max([r['max_np'] for r in acc if 'crashed' not in r] + [0])
